@@ -10,7 +10,7 @@ from common import s2t, t2s
 import common
 
 OPS = {
-    "render": {"res": True}, "highlight": {"res": True}, "tbframe": {},
+    "render": {"res": True}, "highlight": {"res": True}, "tbframe": {}, "tbtwice": {},
     "show_Z": {}, "expandtabs": {}, "wrap_fit": {}, "wrapf_text": {},
 }
 
@@ -164,7 +164,7 @@ def _noise(rng, indent):
     return out
 
 
-def tb_module(rng):
+def tb_module(rng, inner_kind="raise"):
     """-> (source, mode).  A call chain inner <- wrappers <- top; every wrapper is a frame that goes on
     executing after the exception passed through it (finally block, except + re-raise, nested
     try/finally, with-less cleanup) or a plain call.  mode 0: the module raises when executed;
@@ -173,7 +173,12 @@ def tb_module(rng):
     L += [rng.choice(TOP) for _ in range(rng.choice([0, 1, 3, 8]))]
     L += ["import sys"]
     L += ["def inner(x):"] + _noise(rng, 4)
-    L += [rng.choice(["    raise ValueError('boom')", "    return 1 // (x - x)", "    raise ValueError(x)  # " + "c" * 90])]
+    if inner_kind == "helper":       # the innermost frames live in a second file
+        L += ["    return helper(x)"]
+    elif inner_kind == "string":     # ... or in a pseudo file "<...>", which has no source to show
+        L += ["    exec(compile('raise ValueError(1)', '<c17-string>', 'exec'))"]
+    else:
+        L += [rng.choice(["    raise ValueError('boom')", "    return 1 // (x - x)", "    raise ValueError(x)  # " + "c" * 90])]
     L += _noise(rng, 4) + [""] * rng.choice([0, 1, 2])
     prev = "inner"
     for i in range(rng.choice([0, 1, 2, 3, 4])):
@@ -213,10 +218,11 @@ def tb_module(rng):
     return src, mode
 
 
-def run_generated(src, filename, mode):
+def run_generated(src, filename, mode, ns=None):
     """execute a generated module with the standard library only -> (exc_type, exc_value, tb)"""
     import sys as _sys
-    ns = {"__name__": "c17_generated"}
+    ns = dict(ns or {})
+    ns["__name__"] = "c17_generated"
     code = compile(src, filename, "exec")
     if mode == 1:
         exec(code, ns)
@@ -234,6 +240,57 @@ def oracle_linenos(src, mode):
     import traceback as std_tb
     et, ev, tb = run_generated(src, GEN_NAME, mode)
     return [fs.lineno for fs in std_tb.extract_tb(tb) if fs.filename == GEN_NAME]
+
+
+P_NAME, H_NAME, H_REL, S_NAME = "/T/m.py", "/T/h.py", "c17rel/h.py", "<c17-string>"
+
+
+def helper_module(rng):
+    L = [""] * rng.choice([0, 1, 2, 4]) + [rng.choice(TOP) for _ in range(rng.choice([0, 1, 4]))]
+    L += ["def helper(x):"] + _noise(rng, 4) + ["    y = x + 1"] + _noise(rng, 4)
+    L += [rng.choice(["    raise ValueError('helper')", "    return y // (x - x)"])] + _noise(rng, 4)
+    return "\n".join(L) + "\n"
+
+
+def twice_case(rng):
+    """two Traceback renders in ONE process; between them the main file is rewritten with another module
+    (same path), the helper file is kept / deleted / rewritten with shifted lines; or the helper's code
+    object carries a relative file name (joined to rich._IMPORT_CWD, not there).  Expected frames and
+    line numbers: stdlib traceback.extract_tb on the very same code."""
+    import traceback as std_tb
+    kinds = [rng.choice(["raise", "helper", "helper", "string"]) for _ in range(2)]
+    mods = [tb_module(rng, k) for k in kinds]
+    hsrc = helper_module(rng)
+    hstate = rng.choice([0, 0, 1, 2, 3])          # 3: relative co_filename
+    hname = H_REL if hstate == 3 else H_NAME
+    hns = {}
+    exec(compile(hsrc, hname, "exec"), hns)
+    entries = []
+    for (src, mode) in mods:
+        et, ev, tb = run_generated(src, P_NAME, mode, {"helper": hns["helper"]})
+        entries.append([[s2t(fs.filename), fs.lineno] for fs in std_tb.extract_tb(tb)
+                        if fs.filename in (P_NAME, H_NAME, H_REL, S_NAME)])
+    extra = rng.choice([3, 3, 0, 1, 2, 5])
+    transparent = 1 if rng.random() < 0.7 else 0
+    guides = 1 if rng.random() < 0.6 else 0
+    W = rng.choice([100, 100, 120, 60, 80])
+    return ("tbtwice", [[s2t(mods[0][0]), mods[0][1]], [s2t(mods[1][0]), mods[1][1]], s2t(hsrc), hstate,
+                        entries, extra, transparent, guides, W])
+
+
+def _twice_files(arg):
+    """file system as each of the two renders sees it: [(name, present, content)]"""
+    (sa, _), (sb, _), hsrc, hstate = arg[0], arg[1], arg[2], arg[3]
+    h1 = [] if hstate == 3 else [(H_NAME, 1, t2s(hsrc))]
+    if hstate == 0:
+        h2 = [(H_NAME, 1, t2s(hsrc))]
+    elif hstate == 1:
+        h2 = [(H_NAME, 0, "")]
+    elif hstate == 2:
+        h2 = [(H_NAME, 1, "\n\n# moved\n" + t2s(hsrc))]
+    else:
+        h2 = []
+    return [[(P_NAME, 1, t2s(sa))] + h1, [(P_NAME, 1, t2s(sb))] + h2]
 
 
 def tb_cases(rng):
@@ -258,6 +315,27 @@ def generate(rng, tier):
         cases.append(("highlight", [s2t(code), lexer_id, rrange(rng, code.count("\n") + 1)]))
     for _ in range(70 * k):
         cases += tb_cases(rng)
+    for _ in range(60 * k):
+        cases.append(twice_case(rng))
+    # unknown lexer (the no-lexer fallback must expand tabs itself) x every tab size x tab-laden lines
+    for _ in range(120 * k):
+        lines = [rng.choice(["\tif x:\t# tabbed", "\t\ty = [1,\t2]", "a\tb\tc", "\t", "x\t", "    \tmixed", "中\t文\tz", "no tabs"])
+                 for _ in range(rng.choice([1, 2, 4]))]
+        code = "\n".join(lines) + rng.choice(["", "\n"])
+        ln = rng.randrange(2)
+        cases.append(("render", [s2t(code), rng.choice([4, 4, 3, 0]), ln, 1, [], [], rng.randrange(2), [], rng.choice([1, 2, 3, 4, 5, 6, 7, 8]),
+                                 rng.randrange(2), rng.randrange(2) if ln else 0, rng.choice([30, 60, 100])]))
+    # word_wrap with unbreakable runs wider than the code width, every (line_numbers, indent_guides) combination
+    for _ in range(160 * k):
+        run = rng.choice(["x" * rng.randint(20, 90), "中文" * rng.randint(8, 30), "abc_def(" + "q" * 60 + ")", "/".join(["seg"] * 25)])
+        lines = [rng.choice(["", "    ", "        "]) + rng.choice([run, "v = '" + run + "'", run + " tail", "pre " + run])
+                 for _ in range(rng.choice([1, 2, 3]))]
+        if rng.random() < 0.3:
+            lines.insert(rng.randint(0, len(lines)), rng.choice(["", "short line"]))
+        code = "\n".join(lines) + rng.choice(["", "\n"])
+        ln, guides = rng.randrange(2), rng.randrange(2)
+        cw = rng.choice([5, 8, 13, 20])
+        cases.append(("render", [s2t(code), rng.randrange(len(LEXERS)), ln, 1, [], [], 1, [cw], 4, rng.randrange(2), guides, cw + 12]))
     for n in list(range(0, 120)) + [rng.randint(0, 10 ** 7) for _ in range(100 * k)] + [999, 1000, 9999, 10000, -1, -10, -123]:
         cases.append(("show_Z", n))
     for _ in range(100 * k):
@@ -307,6 +385,8 @@ def impl(op, arg):
         return s2t(syn.highlight(t2s(code), tuple(rg) if rg else None).plain)
     if op == "tbframe":
         return _tbframe(arg)
+    if op == "tbtwice":
+        return _tbtwice(arg)
     if op == "show_Z":
         return s2t(str(arg))
     if op == "expandtabs":
@@ -370,6 +450,68 @@ def _tbframe(arg):
     return blocks[idx]
 
 
+def _parse_frames(text, pathmap):
+    """rendered traceback -> [[file id, lineno, kind, lines]] for the frames whose file is in pathmap.
+    kind 0 = code block, 1 = header only, 2 = error text"""
+    import re
+    rows = [l[2:-1].rstrip(" ") for l in text.split("\n") if l.startswith("│ ") and l.endswith("│")]
+    hdr = re.compile(r"^([/<][^ ]*):(\d+) in \S+$")
+    gut = re.compile(r"^(❱ |  ) *\d+( |$)")
+    heads = [(i, hdr.match(r)) for i, r in enumerate(rows) if hdr.match(r)]
+    out = []
+    for n, (i, m) in enumerate(heads):
+        end = heads[n + 1][0] if n + 1 < len(heads) else len(rows)
+        body = rows[i + 1:end]
+        while body and body[0] == "":
+            body.pop(0)
+        while body and body[-1] == "":
+            body.pop()
+        fid = pathmap.get(m.group(1))
+        if fid is None:
+            continue
+        if not body:
+            kind, lines = (1 if m.group(1).startswith("<") else 0), []
+        elif gut.match(body[0]):
+            kind, lines = 0, body
+        else:
+            kind, lines = 2, []
+        out.append([fid, int(m.group(2)), kind, [s2t(x) for x in lines]])
+    return out
+
+
+def _tbtwice(arg):
+    import shutil, tempfile
+    from rich.traceback import Traceback
+    (sa, ma), (sb, mb), hsrc, hstate, _entries, extra, transparent, guides, W = arg
+    d = tempfile.mkdtemp(prefix="c17_", dir="/tmp")
+    P, H = os.path.join(d, "m.py"), os.path.join(d, "h.py")
+    pathmap = {P: 0, H: 1, "/" + H_REL: 1, S_NAME: 2}      # rich._IMPORT_CWD is "/" in the runner
+    res = []
+    try:
+        with open(H, "w", encoding="utf-8") as f:
+            f.write(t2s(hsrc))
+        hns = {}
+        exec(compile(t2s(hsrc), H_REL if hstate == 3 else H, "exec"), hns)
+        for step, (src, mode) in enumerate([(sa, ma), (sb, mb)]):
+            with open(P, "w", encoding="utf-8") as f:      # the same path, rewritten for the second render
+                f.write(t2s(src))
+            if step == 1:
+                if hstate == 1:
+                    os.remove(H)
+                elif hstate == 2:
+                    with open(H, "w", encoding="utf-8") as f:
+                        f.write("\n\n# moved\n" + t2s(hsrc))
+            et, ev, tb = run_generated(t2s(src), P, mode, {"helper": hns["helper"]})
+            t = Traceback.from_exception(et, ev, tb, width=W, extra_lines=extra, theme=THEMES[transparent],
+                                         indent_guides=bool(guides))
+            c = _console(W + 10)
+            c.print(t)
+            res.append([x[1:] + [x[0]] for x in _parse_frames(c.file.getvalue(), pathmap)])
+    finally:
+        shutil.rmtree(d, ignore_errors=True)
+    return [[[lineno, kind, lines] for lineno, kind, lines, _fid in r] for r in res]
+
+
 # ---------------------------------------------------------------- model side
 def model_case(op, arg):
     if op == "render":
@@ -380,6 +522,13 @@ def model_case(op, arg):
     if op == "tbframe":
         code = t2s(arg[0]).expandtabs(4)
         return op, [arg[0], tokens(code, 0)] + arg[2:8]
+    if op == "tbtwice":
+        entries, extra, transparent, guides, W = arg[4:9]
+        renders = []
+        for files, ents in zip(_twice_files(arg), entries):
+            fl = [[s2t(n), pres, s2t(c), tokens(c.expandtabs(4), 0)[0]] for n, pres, c in files]
+            renders.append([fl, s2t("/"), ents, extra, transparent, guides, W])
+        return op, renders
     return op, arg
 
 
@@ -409,6 +558,23 @@ def spec_cases(op, arg, out):
     if op == "tbframe":
         return [("spec.failing_line", [arg[0], arg[2], arg[7], arg[6], out[1] if isinstance(out[1], list) else []]),
                 ("spec.frame_lineno", [arg[2], out[0]])]
+    if op == "tbtwice":
+        if not (isinstance(out, list) and all(isinstance(r, list) for r in out)):
+            return [("spec.rendered", [2])]
+        cases = []
+        guides, W = arg[7], arg[8]
+        for files, ents, blocks in zip(_twice_files(arg), arg[4], out):
+            fmap = {n: (c if pres else None) for n, pres, c in files}
+            if len(blocks) != len(ents):
+                cases.append(("spec.rendered", [2]))
+                continue
+            for (fname, lineno), (no, kind, lines) in zip(ents, blocks):
+                name = t2s(fname)
+                shown = "/" + name if not name.startswith(("/", "<")) else name     # extract joins the import cwd
+                content = fmap.get(shown)
+                cases.append(("spec.frame_lineno", [lineno, no]))
+                cases.append(("spec.block_ok", [s2t(shown), [] if content is None else [s2t(content)], lineno, W, guides, kind, lines]))
+        return cases
     if op in ("wrap_fit", "wrapf_text"):
         return [("spec.wrap_ok", [arg[0], arg[1], out])]
     return []
